@@ -109,6 +109,11 @@ def h_chunk(f, ns, sched, start='zero', pastify=False, oracle='both'):
                 res.append(('offline-empty', A.false))
             else:
                 res.append(('offline', A.eq(got, refct.val(A, off, tau - h))))
+                # every returned sample, taken by itself, reports the robustness of its own instant (a sample that is
+                # superseded by a later one with the same time-stamp must not carry a different value)
+                for i, smp in enumerate(cat):
+                    inside = A.And(A.le(S + h, smp[0]), A.le(smp[0], E))
+                    res.append(('sample@%d' % i, A.Or(A.Not(inside), A.eq(smp[1], refct.val(A, off, smp[0] - h)))))
         if oracle in ('both', 'rho') and simple and not pastify:
             if len(vs) == 2 and len(refsem.kids(f)) == 2:
                 want = symx.memo(env, cache, 'want', lambda: refct.ref_binary(A, op, sigs['x'], sigs['y'], tau, S, a, b))
